@@ -70,8 +70,9 @@ def dipole_Hfield(
     mask1 = r == 0
     if np.any(mask1):
         with np.errstate(divide="ignore", invalid="ignore"):
-            H[mask1] = moments[mask1] / 0.0
-            np.nan_to_num(H, copy=False, posinf=np.inf, neginf=-np.inf)
+            H[mask1] = np.nan_to_num(
+                moments[mask1] / 0.0, posinf=np.inf, neginf=-np.inf
+            )
 
     return H
 
